@@ -45,6 +45,49 @@ def one_per_pattern(methods, names):
     return out
 
 
+def _eval_poly(poly, env):
+    total = 0
+    for mono, coef in poly.t.items():
+        v = coef
+        for a in mono:
+            x = env(a)
+            if x is None:
+                return None
+            v *= x
+        total += v
+    return total
+
+
+def spurious_refusal(p, need, roles, domain=(0, 1, 2, 3)):
+    """a path that refuses (returns an error without moving anything) although the request fits: returns a witness
+    assignment {atom: value} with every path condition true, pos <= limit and 0 <= need <= limit - pos, or None.
+    Decided over a small finite model of the integer atoms (the conditions are comparisons of linear terms); paths with a
+    condition that is not such a comparison are left to the other rules."""
+    import itertools
+    atoms = set(need.atoms()) if hasattr(need, 'atoms') else set()
+    for c, _ in p.conds:
+        if not isinstance(c, Cmp):
+            return None
+        atoms |= set(c.p.atoms())
+    fpos, flim = 'f:' + roles.pos, 'f:' + roles.limit
+    atoms |= {fpos, flim}
+    atoms = sorted(atoms)
+    if len(atoms) > 6 or any(not (a.startswith('p:') or a in (fpos, flim)) for a in atoms):
+        return None
+    for vals in itertools.product(domain, repeat=len(atoms)):
+        asg = dict(zip(atoms, vals))
+        if asg[fpos] > asg[flim]:
+            continue
+        env = asg.get
+        n = _eval_poly(need, env)
+        if n is None or n < 0 or n > asg[flim] - asg[fpos]:
+            continue
+        if all(_eval_cond(c, env) == sense for c, sense in p.conds):
+            asg['need'] = n
+            return asg
+    return None
+
+
 def check_limit_test(chk, db, fn, roles, limit_err, rule, label):
     """Ensure/Prepare of a buffer class: error iff need > remaining"""
     where = facts.site(fn)
@@ -119,6 +162,11 @@ def check_buffer_primitive(chk, db, fn, roles, kind, limit_err, rules, label):
                 e_ok = False
                 e_why.append('refusal path has effects')
             continue
+        if not touches and isinstance(p.ret, StatusVal) and p.ret.kind == 'err':
+            w = spurious_refusal(p, need, roles)
+            if w:
+                e_ok = False
+                e_why.append('path [%s] refuses a request that fits (%s)' % (p.describe()[:100], ', '.join('%s=%s' % kv for kv in sorted(w.items()))))
         if not touches:
             # a zero-length request (transfer loop not entered) legitimately moves nothing
             if not (isinstance(p.ret, StatusVal) and p.ret.kind == 'err') and not p.loops_skipped:
@@ -340,6 +388,35 @@ def check_stream_class(chk, db, rect, kind, rule, rule_status):
             else:
                 chk.decide(not why, rule, where + ' value', '%s: %s' % (label, '; '.join(sorted(set(why))) if why else 'every byte written is the padding value'),
                            function=ir.fn_label(m))
+    # end of data is a property of the stream state or of get()'s int_type result - never of a delivered character: once the
+    # result of get() has been narrowed to the character type, the data byte 0xff is indistinguishable from Traits::eof()
+    if kind == 'reader':
+        for m in one_per_pattern(methods, prims):
+            narrowed = set()
+
+            def is_narrowed_get(x):
+                return x.get('k') == 'icast' and 'char' in (x.get('to') or '') and 'int' in (x.get('from') or '') and \
+                    ir.strip_all_casts(x.get('e', {})).get('k') == 'call' and ir.callee_name(ir.strip_all_casts(x['e'])) == 'get' and \
+                    not ir.strip_all_casts(x['e']).get('args')
+            for y in ir.walk(m['body']):
+                if y.get('k') == 'decl':
+                    for v in y['vars']:
+                        if 'id' in v and v.get('init') is not None and any(is_narrowed_get(z) for z in ir.walk(v['init'])):
+                            narrowed.add(v['id'])
+            bad = []
+            for y in ir.walk(m['body']):
+                cmp_like = (y.get('k') == 'call' and ir.callee_name(y) in ('eq_int_type', 'not_eof')) or (y.get('k') == 'bin' and y.get('op') in ('==', '!='))
+                if not cmp_like:
+                    continue
+                sub = list(ir.walk(y))
+                has_eof = any(z.get('k') == 'call' and ir.callee_name(z) == 'eof' and 'obj' not in z for z in sub) or ir.callee_name(y) == 'not_eof'
+                has_char = any((z.get('k') == 'ref' and z.get('id') in narrowed) or is_narrowed_get(z) for z in sub)
+                if has_eof and has_char:
+                    bad.append(y.get('loc', {}).get('l'))
+            if narrowed or bad or any(ir.callee_name(c) == 'get' for c in ir.calls(m['body'])):
+                chk.decide(not bad, rule, facts.site(m) + ' eof', '%s::%s: %s' % (rect.replace('nop::', ''), m['n'],
+                           'end of stream is tested on the character AFTER get() was narrowed to the character type (line %s): the byte 0xff reads as end of data' % bad[0]
+                           if bad else 'get() result not narrowed before an eof test'), function=ir.fn_label(m))
     for m in one_per_pattern(methods, prims):
         where = facts.site(m)
         label = '%s::%s(%s)' % (rect.replace('nop::', ''), m['n'], ', '.join(p['t'] for p in m['params']))
